@@ -62,7 +62,9 @@ func (rm *RegistrationManager) HandleRegUpdates(ctx context.Context, regChan <-c
 	defer close(shallowBuffer)
 
 	// Add to registration manager so that we cann access it for stats printing.
+	rm.ingestChanLock.Lock()
 	rm.ingestChan = shallowBuffer
+	rm.ingestChanLock.Unlock()
 
 	// launch workers
 	for i := 0; i < workers; i++ {
